@@ -48,6 +48,7 @@ type mvInput struct {
 	GenN    int   `json:"gen_n,omitempty"`
 	Drains  bool  `json:"drains,omitempty"`
 	Iso     bool  `json:"iso,omitempty"` // re-scan every open snapshot after every mutating op
+	Delta   bool  `json:"delta,omitempty"` // UseDeltaInterleaving
 }
 
 func b2i(bs []byte) []int {
@@ -192,6 +193,9 @@ func newExec(in *mvInput) *mvExec {
 	if in.MM {
 		e.arena = NewArena()
 		cfg.UseMemoryMgmt(e.arena.Malloc, e.arena.Free)
+	}
+	if in.Delta {
+		cfg.UseDeltaInterleaving()
 	}
 	e.base = [4]int64{atomic.LoadInt64(&hookGCSent), atomic.LoadInt64(&hookGCDone), atomic.LoadInt64(&hookFreeSent), atomic.LoadInt64(&hookFreeDone)}
 	e.db = nitro.NewWithConfig(cfg)
